@@ -235,7 +235,7 @@ func (r *c09run) searcher(id int, seed uint64, lazy bool, stop <-chan struct{}, 
 			}
 			filter = &f
 		}
-		switch g.R.IntN(8) {
+		switch g.R.IntN(10) {
 		case 0, 1, 2:
 			ss := []int{25, 50, 75}[g.R.IntN(3)]
 			q = models.Query{Property: "vec", VectorVamana: &models.SearchVectorVamanaOptions{Vector: g.Vector(6, models.DistanceEuclidean), Operator: models.OperatorNear, SearchSize: ss, Limit: 1 + g.R.IntN(ss), Filter: filter}}
@@ -252,10 +252,33 @@ func (r *c09run) searcher(id int, seed uint64, lazy bool, stop <-chan struct{}, 
 			}
 			q = idQuery(ids...)
 		default:
-			q = models.Query{Property: "_or", Or: []models.Query{
-				{Property: "vec", VectorVamana: &models.SearchVectorVamanaOptions{Vector: g.Vector(6, models.DistanceEuclidean), Operator: models.OperatorNear, SearchSize: 50, Limit: 10, Filter: filter}},
-				{Property: "txt", Text: &models.SearchTextOptions{Value: textQuery(g), Operator: models.OperatorContainsAny, Limit: 10}},
-			}}
+			// composites: the sub-queries of one request run in parallel inside ONE cache transaction.
+			// Several leaves on the same index (same cache name) with different amounts of work are the
+			// interesting case: they share or contend for one cache within the transaction.
+			vam := func(ss, limit int, f *models.Query) models.Query {
+				return models.Query{Property: "vec", VectorVamana: &models.SearchVectorVamanaOptions{Vector: g.Vector(6, models.DistanceEuclidean), Operator: models.OperatorNear, SearchSize: ss, Limit: limit, Filter: f}}
+			}
+			flat := func(limit int) models.Query {
+				return models.Query{Property: "flat", VectorFlat: &models.SearchVectorFlatOptions{Vector: g.Vector(4, models.DistanceEuclidean), Operator: models.OperatorNear, Limit: limit}}
+			}
+			txt := func() models.Query {
+				return models.Query{Property: "txt", Text: &models.SearchTextOptions{Value: textQuery(g), Operator: models.OperatorContainsAny, Limit: 10}}
+			}
+			switch g.R.IntN(6) {
+			case 0:
+				q = models.Query{Property: "_or", Or: []models.Query{vam(50, 10, filter), txt()}}
+			case 1: // quick leaf + slow leaf on the same graph index
+				q = models.Query{Property: "_or", Or: []models.Query{vam(25, 3, nil), vam(75, 75, filter)}}
+			case 2:
+				q = models.Query{Property: "_and", And: []models.Query{vam(75, 60, nil), vam(25, 25, nil)}}
+			case 3:
+				q = models.Query{Property: "_or", Or: []models.Query{vam(25, 5, nil), vam(50, 40, nil), vam(75, 75, nil), flat(5), flat(20)}}
+			case 4:
+				q = models.Query{Property: "_or", Or: []models.Query{txt(), txt(), {Property: "_and", And: []models.Query{vam(50, 50, nil), vam(75, 70, filter)}}}}
+			default:
+				q = models.Query{Property: "_and", And: []models.Query{flat(20), flat(15), vam(50, 50, nil)}}
+			}
+			r.res.Stat("composite_searches", 1)
 		}
 		sel := []string{"none", "ver", "star"}[g.R.IntN(3)]
 		if lazy {
